@@ -11,6 +11,7 @@ import (
 	"sort"
 	"strconv"
 	"strings"
+	"time"
 
 	"verif/internal/check"
 	"verif/internal/load"
@@ -54,6 +55,20 @@ func main() {
 		os.Exit(2)
 	}
 	rep := check.New(id, rules.Levels[id], tier, seed)
+	// backstop: an analysis that does not terminate in its budget is an undecided property (fail closed), never a hang
+	budget := 20 * time.Minute
+	if tier == "thorough" {
+		budget = 90 * time.Minute
+	}
+	if v, err := strconv.Atoi(os.Getenv("VERIF_BUDGET_MIN")); err == nil && v > 0 {
+		budget = time.Duration(v) * time.Minute
+	}
+	time.AfterFunc(budget, func() {
+		wd := check.New(id, rules.Levels[id], tier, seed)
+		wd.Explanation = "the analysis did not finish within its time budget on this tree"
+		wd.Unknown("checker", "analysis-timeout", "", fmt.Sprintf("the analysis did not terminate within %s on this tree; the property could not be established", budget))
+		os.Exit(wd.Finish())
+	})
 	code := func() (code int) {
 		defer func() {
 			if r := recover(); r != nil {
